@@ -41,6 +41,9 @@ var c08Corpus = []string{
 	"@each(v in a)@breakIf(v == 2){{ v }}@continueIf(v)@end",
 	"@dump(a, [1])",
 	"@component(\"c\", {a: 1})",
+	"@use(\"~m\")@insert(\"content\")<p>x</p>@end",
+	"@component(\"c\")@slot(\"a\")one@end@slot two@end@end",
+	"@insert(\"t\", \"a,b\")@insert(\"u\")v@end",
 }
 
 // refIncomplete: the template text p ends inside an open {{ }}, directive argument list, string or comment, or
@@ -78,7 +81,7 @@ func refIncomplete(p string) bool {
 		if p[i] == '@' {
 			kw := ""
 			for _, k := range []string{"@elseif", "@else", "@end", "@if", "@each", "@for", "@use", "@reserve", "@insert",
-				"@breakIf", "@continueIf", "@component", "@dump"} {
+				"@breakIf", "@continueIf", "@component", "@dump", "@slot"} {
 				if refContainsAt(p, k, i) {
 					kw = k
 					break
@@ -90,6 +93,19 @@ func refIncomplete(p string) bool {
 			case "@end":
 				open--
 			}
+			if kw == "@slot" {
+				// at a use site a slot has a body closed by @end; its name is optional
+				open++
+				i += len(kw)
+				if i < len(p) && p[i] == '(' {
+					j, ok := refSkipCode(p, i+1, true)
+					if !ok {
+						return true
+					}
+					i = j
+				}
+				continue
+			}
 			if kw != "" {
 				i += len(kw)
 				if kw != "@else" && kw != "@end" {
@@ -99,6 +115,12 @@ func refIncomplete(p string) bool {
 					j, ok := refSkipCode(p, i+1, true)
 					if !ok {
 						return true
+					}
+					if kw == "@insert" && !refTopLevelComma(p[i+1:j-1]) {
+						open++ // block form: body up to @end
+					}
+					if kw == "@component" && refContainsAt(p, "@slot", j) {
+						open++ // slots follow: the use is closed by its own @end
 					}
 					i = j
 				}
@@ -171,4 +193,27 @@ func HarnessC08Prefix() {
 	} else {
 		vAssert(errs[0].Line() >= 1, "error-has-line")
 	}
+}
+
+// refTopLevelComma: the argument text holds a comma outside strings, brackets and braces.
+func refTopLevelComma(a string) bool {
+	depth := 0
+	for i := 0; i < len(a); i++ {
+		c := a[i]
+		switch {
+		case c == '"' || c == '\'':
+			j := i + 1
+			for j < len(a) && !(a[j] == c && a[j-1] != '\\') {
+				j++
+			}
+			i = j
+		case c == '(' || c == '[' || c == '{':
+			depth++
+		case c == ')' || c == ']' || c == '}':
+			depth--
+		case c == ',' && depth == 0:
+			return true
+		}
+	}
+	return false
 }
